@@ -416,6 +416,25 @@ func (c *Ctx) fold(cond ssa.Value) (bool, bool) {
 			return v, true
 		}
 	}
+	if bb, isBin := cond.(*ssa.BinOp); isBin && isCompare(bb.Op) && len(c.Assume) > 0 {
+		// both sides evaluable to integers under the assumptions
+		_, xc := bb.X.(*ssa.Const)
+		_, yc := bb.Y.(*ssa.Const)
+		if !(xc && yc) {
+			if l, ok1 := c.evalInt(bb.X, 0); ok1 {
+				if r, ok2 := c.evalInt(bb.Y, 0); ok2 {
+					// only when at least one side actually depends on an assumption
+					if c.dependsOnAssumption(bb.X, 0) || c.dependsOnAssumption(bb.Y, 0) {
+						res := constant.Compare(l, bb.Op, r)
+						if neg {
+							res = !res
+						}
+						return res, true
+					}
+				}
+			}
+		}
+	}
 	b, ok := cond.(*ssa.BinOp)
 	if !ok {
 		// a bool-typed discriminator used directly as the condition
@@ -1296,4 +1315,79 @@ func (c *Ctx) ReachableBlocks(fn *ssa.Function) []*ssa.BasicBlock {
 		}
 	}
 	return out
+}
+
+// assumedInt: the numeric value an assumption gives to v, if any.
+func (c *Ctx) assumedInt(v ssa.Value) (constant.Value, bool) {
+	if _, isC := v.(*ssa.Const); isC {
+		return nil, false
+	}
+	for _, a := range c.Assume {
+		if a.NotEqual {
+			continue
+		}
+		match := (a.TypeName != "" && typeNameOf(v.Type()) == a.TypeName) || (a.ProvPat != "" && prov.Match(a.ProvPat, prov.Of(v)))
+		if !match {
+			continue
+		}
+		av := constant.MakeFromLiteral(a.Value, token.INT, 0)
+		if av.Kind() == constant.Int {
+			return av, true
+		}
+	}
+	return nil, false
+}
+
+func (c *Ctx) dependsOnAssumption(v ssa.Value, d int) bool {
+	if d > 8 {
+		return false
+	}
+	if _, ok := c.assumedInt(v); ok {
+		return true
+	}
+	switch x := v.(type) {
+	case *ssa.BinOp:
+		return c.dependsOnAssumption(x.X, d+1) || c.dependsOnAssumption(x.Y, d+1)
+	case *ssa.Convert:
+		return c.dependsOnAssumption(x.X, d+1)
+	case *ssa.ChangeType:
+		return c.dependsOnAssumption(x.X, d+1)
+	}
+	return false
+}
+
+// evalInt evaluates an integer expression built from constants, assumed
+// values and + - * << >> & | (constant propagation under the assumptions).
+func (c *Ctx) evalInt(v ssa.Value, d int) (constant.Value, bool) {
+	if d > 8 {
+		return nil, false
+	}
+	if av, ok := c.assumedInt(v); ok {
+		return av, true
+	}
+	switch x := v.(type) {
+	case *ssa.Const:
+		if x.Value != nil && x.Value.Kind() == constant.Int {
+			return x.Value, true
+		}
+	case *ssa.Convert:
+		return c.evalInt(x.X, d+1)
+	case *ssa.ChangeType:
+		return c.evalInt(x.X, d+1)
+	case *ssa.BinOp:
+		l, ok1 := c.evalInt(x.X, d+1)
+		r, ok2 := c.evalInt(x.Y, d+1)
+		if !ok1 || !ok2 {
+			return nil, false
+		}
+		switch x.Op {
+		case token.ADD, token.SUB, token.MUL, token.AND, token.OR:
+			return constant.BinaryOp(l, x.Op, r), true
+		case token.SHL, token.SHR:
+			if s, ok := constant.Uint64Val(r); ok && s < 128 {
+				return constant.Shift(l, x.Op, uint(s)), true
+			}
+		}
+	}
+	return nil, false
 }
